@@ -249,6 +249,40 @@ def r10_8(ck: Check) -> None:
         ck.violated("R10.8", construct, "next-frame stores %s; stop_sending %s" % ([e.describe()[:160] for e in stores[1:]], [e.describe()[:160] for e in stop]), c.fi.loc)
 
 
+def r10_8b(ck: Check) -> None:
+    """write-readiness is what makes queued frames leave: asked for when there is something to send, dropped (keeping read-readiness) when
+    the queue is empty - always for this connection's own socket"""
+    for fn, want in (("start_sending", "selectors.EVENT_READ | selectors.EVENT_WRITE"), ("stop_sending", "selectors.EVENT_READ")):
+        s = ck.summ(CRP + fn, 0)
+        sp = Spec(s, ("self",))
+        mods = [e for e in s.events if e.kind == "call" and not e.chain and e.parts and e.parts[0] == ("a", sp.term("self.local_peer.selector"), "modify")]
+        construct = "%s: selector.modify(self.sock, %s, data=self)" % (fn, want)
+        ok = False
+        if len(mods) == 1 and not mods[0].loops and not residual(mods[0], ()):
+            t = mods[0].term
+            args = list(t[2])
+            kw = dict((k_, v) for k_, v in t[3] if isinstance(k_, str))
+            data = kw.get("data", args[2] if len(args) > 2 else None)
+            ok = len(args) >= 2 and args[0] == sp.term("self.sock") and args[1] == sp.term(want) and data == sp.term("self")
+        if ok:
+            ck.ok("R10.8", construct, "", mods[0].loc)
+        else:
+            ck.violated("R10.8", construct, "%s" % [show(e.term)[:160] for e in mods], s.fi.loc)
+    g = ck.summ(CRP + "_get_msg_id", 0, heap=True)      # (remembered store: the value read after the increment)
+    spg = Spec(g, ("self",))
+    st = [e for e in g.events if e.kind == "store" and e.term == spg.term("self._next_msg_id")]
+    from ..engine.match import function_value
+    v = function_value(g)
+    init = ck.summ(CRP + "__init__", 0)
+    i0 = [e for e in init.events if e.kind == "store" and e.term == ("a", ("v", init.fi.params[0]), "_next_msg_id")]
+    construct = "_get_msg_id: ids count up from 1 (0 stays reserved for 'not a response')"
+    if len(st) == 1 and st[0].value == spg.term("self._next_msg_id + 1") and v == spg.term("self._next_msg_id + 1") and len(i0) == 1 and i0[0].value == C(0):
+        ck.ok("R10.8", construct, "", g.fi.loc)
+    else:
+        ck.violated("R10.8", construct, "update %s, returns %s, initial %s" % ([show(e.value) for e in st], show(v) if v is not None else None,
+                                                                               [show(e.value) for e in i0]), g.fi.loc)
+
+
 def r10_5(ck: Check) -> None:
     s = ck.summ("skepticoin.networking.manager.get_recent_block_heights", 0)
     require_return(ck, "R10.5", s, Spec(s, ("h",)),
@@ -350,7 +384,7 @@ def check(ck: Check) -> None:
     ck.run("R10.2", "a transaction is relayed only when new and admitted", lambda: r13_4(ck))
     ck.run("R10.3", "inventory service", lambda: r10_3(ck))
     ck.run("R10.4", "inventory consumption", lambda: r10_4(ck))
-    ck.run("R10.8", "send side: framing, queue order, partial sends", lambda: r10_8(ck))
+    ck.run("R10.8", "send side: framing, queue order, partial sends, write-readiness, message ids", lambda: (r10_8(ck), r10_8b(ck)))
     ck.run("R10.5", "locator", lambda: r10_5(ck))
     ck.run("R10.6", "active fetching predicate and step", lambda: r10_6(ck))
     ck.run("R10.7", "inventory bookkeeping", lambda: r10_7(ck))
